@@ -107,7 +107,7 @@ Proof. vm_compute. reflexivity. Qed.
 Example O02_body_goose_Ctx_constSpec :
   has_body func_bodies "goose.Ctx.constSpec"
     "func(spec *ast.ValueSpec) coq.ConstDecl"
-    "{ if len(spec.Names) > 1 { ctx.unsupported(spec, ""multiple declarations in one spec (split them up)"") } ident := spec.Names[0] cd := coq.ConstDecl{ Name: ident.Name, AddTypes: ctx.PkgConfig.TypeCheck, } addSourceDoc(spec.Comment, &cd.Comment) if len(spec.Values) == 0 { ctx.unsupported(spec, ""const with no value"") } val := spec.Values[0] cd.Val = ctx.expr(val) if spec.Type == nil { cd.Type = ctx.coqTypeOfType(spec, ctx.typeOf(val)) } else { cd.Type = ctx.coqType(spec.Type) } cd.Val = ctx.expr(spec.Values[0]) return cd }" = true.
+    "{ if len(spec.Names) > 1 { ctx.unsupported(spec, ""multiple declarations in one spec (split them up)"") } ident := spec.Names[0] if ident.Name == ""_"" { ctx.unsupported(spec, ""constant or variable named _"") } cd := coq.ConstDecl{ Name: ident.Name, AddTypes: ctx.PkgConfig.TypeCheck, } addSourceDoc(spec.Comment, &cd.Comment) if len(spec.Values) == 0 { ctx.unsupported(spec, ""const with no value"") } val := spec.Values[0] cd.Val = ctx.expr(val) if spec.Type == nil { cd.Type = ctx.coqTypeOfType(spec, ctx.typeOf(val)) } else { cd.Type = ctx.coqType(spec.Type) } cd.Val = ctx.expr(spec.Values[0]) return cd }" = true.
 Proof. vm_compute. reflexivity. Qed.
 
 Example O02_body_goose_errorReporter_unsupported :
@@ -172,6 +172,7 @@ Example O02_inv_guard_sites :
   "goose.Ctx.integerConversion | todo | ""conversion from untyped int to uint64""";
   "goose.Ctx.integerConversion | unsupported | ""casts from unsupported type %v to uint%d""";
   "goose.Ctx.callExpr | unsupported | ""delete on non-map""";
+  "goose.Ctx.callExpr | unsupported | ""call whose arguments are the results of a multi-valued call""";
   "goose.Ctx.selectExpr | unsupported | ""unexpected select expression""";
   "goose.Ctx.compositeLiteral | unsupported | ""slice literal with multiple elements""";
   "goose.Ctx.compositeLiteral | unsupported | ""composite literal of type %v""";
@@ -186,6 +187,7 @@ Example O02_inv_guard_sites :
   "goose.Ctx.binExpr | unsupported | ""binary operator %v""";
   "goose.Ctx.sliceExpr | unsupported | ""3-index slice""";
   "goose.Ctx.sliceExpr | unsupported | ""setting the max capacity in a slice expression is not supported""";
+  "goose.Ctx.sliceExpr | unsupported | ""slice expression on %v (only slices are supported)""";
   "goose.Ctx.sliceExpr | unsupported | ""complete slice doesn't do anything""";
   "goose.Ctx.nilExpr | unsupported | ""nil of type %v (not pointer or slice)""";
   "goose.Ctx.unaryExpr | unsupported | ""unary expression %s""";
@@ -234,9 +236,11 @@ Example O02_inv_guard_sites :
   "goose.Ctx.stmtInBlock | unsupported | ""statement""";
   "goose.Ctx.returnType | unsupported | ""named returned value""";
   "goose.Ctx.returnType | unsupported | ""named returned value""";
+  "goose.Ctx.funcDecl | unsupported | ""function named _""";
   "goose.Ctx.funcDecl | nope | ""function with multiple receivers""";
   "goose.Ctx.funcDecl | unsupported | ""unexpected function receiver type: %s""";
   "goose.Ctx.constSpec | unsupported | ""multiple declarations in one spec (split them up)""";
+  "goose.Ctx.constSpec | unsupported | ""constant or variable named _""";
   "goose.Ctx.constSpec | unsupported | ""const with no value""";
   "goose.Ctx.imports | unsupported | ""renaming imports""";
   "goose.Ctx.maybeDecls | unsupported | ""function declaration with no body""";
